@@ -1,6 +1,8 @@
 package scanner
 
 import (
+	"fmt"
+
 	"github.com/jsightapi/jsight-schema-core/bytes"
 	"github.com/jsightapi/jsight-schema-core/fs"
 	"github.com/jsightapi/jsight-schema-core/kit"
@@ -23,9 +25,17 @@ func stateJSchema(s *Scanner, _ byte) *jerr.JApiError {
 	return nil
 }
 
-func (s *Scanner) readSchemaWithJsc() (uint, *jerr.JApiError) {
+func (s *Scanner) readSchemaWithJsc() (l uint, je *jerr.JApiError) {
 	fc := s.file.Content()
 	file := fs.NewFile("", fc.Sub(s.curIndex, fc.LenIndex()))
+
+	// jsight-schema-core may panic on a truncated body (e.g. a block comment cut off by the
+	// end of the file): that is an error in the document, not a reason to crash.
+	defer func() {
+		if r := recover(); r != nil {
+			l, je = 0, s.japiErrorBasic(fmt.Sprintf("%s: %v", jerr.RuntimeFailure, r))
+		}
+	}()
 
 	l, err := jschema.FromFile(file).Len()
 	if err != nil {
